@@ -349,8 +349,10 @@ func (c *Check) readerFraming(rule string) {
 	c.require(okLoop, "C08.1 header-validation", "fsm.read", "marker loop", p.Pos(fn.Pos()), "a step-1 loop over indices 0..15 compares every marker octet of the header")
 
 	// after offering an error the reader returns without reading again
-	for _, b := range fn.Blocks {
-		for _, in := range b.Instrs {
+	var rinstrs []ssa.Instruction
+	allInstrs(fn, func(in ssa.Instruction) { rinstrs = append(rinstrs, in) })
+	{
+		for _, in := range rinstrs {
 			sel, ok := in.(*ssa.Select)
 			if !ok {
 				continue
